@@ -1106,6 +1106,88 @@ impl Machine {
     }
 }
 
+/// Canonical dump of the machine's store: the user-level global frame and everything reachable
+/// from it. Vectors and frames are numbered in first-visit order, so two stores with the same
+/// shape, values and alias partition give the same dump (the canonical model state of E-hist).
+pub fn canonical_state(m: &Machine) -> String {
+    struct D {
+        vecs: Vec<*const RVec>,
+        frames: Vec<*const Frame>,
+        out: String,
+    }
+    fn val(d: &mut D, v: &RVal, global: *const Frame) {
+        match v {
+            RVal::Pair(p) => {
+                d.out.push('(');
+                val(d, &p.0, global);
+                d.out.push_str(" . ");
+                val(d, &p.1, global);
+                d.out.push(')');
+            }
+            RVal::Vector(vc) => {
+                let ptr = Rc::as_ptr(vc);
+                if let Some(i) = d.vecs.iter().position(|p| *p == ptr) {
+                    d.out.push_str(&format!("#vec{}", i));
+                } else {
+                    d.vecs.push(ptr);
+                    d.out.push_str(&format!("#vec{}{}[", d.vecs.len() - 1, if vc.mutable { "m" } else { "lit" }));
+                    let items = vc.items.borrow().clone();
+                    for i in items.iter() {
+                        val(d, i, global);
+                        d.out.push(' ');
+                    }
+                    d.out.push(']');
+                }
+            }
+            RVal::Proc(p) => match &**p {
+                RProc::Prim(n) => d.out.push_str(&format!("#prim:{}", n)),
+                RProc::Closure { params, rest, body, env } => {
+                    d.out.push_str(&format!("#closure({:?} {:?} {})", params, rest, body.iter().map(|b| b.to_string()).collect::<Vec<_>>().join(" ")));
+                    frame(d, env, global);
+                }
+            },
+            other => d.out.push_str(&format!("{}", other)),
+        }
+    }
+    fn frame(d: &mut D, f: &Env, global: *const Frame) {
+        let ptr = Rc::as_ptr(f);
+        if ptr == global {
+            d.out.push_str("@G");
+            return;
+        }
+        if let Some(i) = d.frames.iter().position(|p| *p == ptr) {
+            d.out.push_str(&format!("@f{}", i));
+            return;
+        }
+        d.frames.push(ptr);
+        d.out.push_str(&format!("@f{}{{", d.frames.len() - 1));
+        for n in f.local_names() {
+            let c = f.vars.borrow().get(&n).unwrap().clone();
+            d.out.push_str(&n);
+            d.out.push('=');
+            let v = c.borrow().clone();
+            val(d, &v, global);
+            d.out.push(';');
+        }
+        d.out.push('}');
+        match &f.parent {
+            Some(p) => frame(d, p, global),
+            None => d.out.push_str("@prims"),
+        }
+    }
+    let mut d = D { vecs: vec![], frames: vec![], out: String::new() };
+    let g = Rc::as_ptr(&m.global);
+    for n in m.global.local_names() {
+        let c = m.global.vars.borrow().get(&n).unwrap().clone();
+        d.out.push_str(&n);
+        d.out.push('=');
+        let v = c.borrow().clone();
+        val(&mut d, &v, g);
+        d.out.push('\n');
+    }
+    d.out
+}
+
 /// The bundled macros of the pinned tree insert these identifiers literally (defect model).
 fn unhygienic_expansion(head: &str, v: &[Sx]) -> Option<Sx> {
     use crate::sexp::{list, sym};
